@@ -1,6 +1,7 @@
 package main
 
 import (
+	"regexp"
 	"fmt"
 	"go/token"
 	"go/types"
@@ -131,6 +132,9 @@ func vkey(v ssa.Value, depth int) string {
 		args := callArgs(x)
 		if amountWrappers[n] && len(args) >= 1 {
 			return vkey(args[len(args)-1], depth+1)
+		}
+		if k, ok := inlineWrapperKey(x, depth); ok {
+			return k
 		}
 		var ks []string
 		for _, a := range args {
@@ -1632,4 +1636,41 @@ func (e *Engine) c04Composite(r *Report, routines []*valueRoutine) {
 	if n == 0 {
 		r.Fail("R7", "composites", "", "UNRESOLVED-ANCHOR: no function chains two value routines")
 	}
+}
+
+// inlineWrapperKey: a call to a one-block fx-core function without effects that only returns an expression over its
+// parameters (`func isIBCDenom(d string) bool { return strings.HasPrefix(d, "ibc/") }`) is keyed as that expression with the
+// arguments substituted, so that extracting a test into a helper does not change what the test is known to mean.
+func inlineWrapperKey(x *ssa.Call, depth int) (string, bool) {
+	f := x.Call.StaticCallee()
+	if f == nil || len(f.Blocks) != 1 || x.Call.IsInvoke() || len(f.Params) != len(x.Call.Args) || len(f.FreeVars) > 0 || f.Signature.Recv() != nil {
+		return "", false
+	}
+	if !strings.HasPrefix(fnPkgPath(f), ModPath) {
+		return "", false
+	}
+	var ret *ssa.Return
+	for _, in := range f.Blocks[0].Instrs {
+		switch t := in.(type) {
+		case *ssa.Return:
+			ret = t
+		case *ssa.Call:
+			if c := t.Call.StaticCallee(); t.Call.IsInvoke() || c == nil || c.Blocks != nil {
+				return "", false // only calls into dependencies without bodies (strings.HasPrefix, …)
+			}
+		case *ssa.BinOp, *ssa.UnOp, *ssa.FieldAddr, *ssa.Field, *ssa.Convert, *ssa.ChangeType, *ssa.Slice, *ssa.IndexAddr, *ssa.Index, *ssa.DebugRef:
+		default:
+			return "", false
+		}
+	}
+	if ret == nil || len(ret.Results) != 1 {
+		return "", false
+	}
+	k := vkey(ret.Results[0], depth+1)
+	for i, p := range f.Params {
+		re := regexp.MustCompile(`P:` + regexp.QuoteMeta(p.Name()) + `\b`)
+		ak := vkey(x.Call.Args[i], depth+1)
+		k = re.ReplaceAllLiteralString(k, "\x00"+ak)
+	}
+	return strings.ReplaceAll(k, "\x00", ""), true
 }
